@@ -562,6 +562,20 @@ let cmd_freeze (a : sx list) : string =
        | _ -> "(outoffuel)")
   | _ -> failwith "freeze: arguments"
 
+(* hist SCHEMA SLOW (job SVAL BUDGET|none)... : results of consecutive to_datum calls on one configuration *)
+let cmd_hist (a : sx list) : string =
+  match a with
+  | sch :: slow :: jobs ->
+      (match frozen sch with
+       | Ok fs ->
+           let js = L.map (fun j -> match head j with
+                                    | ("job", [v; b]) -> (sx_sval v, (if atom b = "none" then None else Some (sx_n b)))
+                                    | _ -> failwith "bad job") jobs in
+           let (rs, _) = SerHistory.hist_run fs (atom slow <> "0") ([], []) js in
+           "(ok" ^ String.concat "" (L.map (fun r -> " " ^ show_res hex r) rs) ^ ")"
+       | _ -> "(bad-schema)")
+  | _ -> failwith "hist: arguments"
+
 let run_case (line : string) : string =
   try
     match parse_many line with
@@ -577,6 +591,7 @@ let run_case (line : string) : string =
          | "cr" -> cmd_cr args
          | "fileparse" -> cmd_fileparse args
          | "parse" -> cmd_parse args
+         | "hist" -> cmd_hist args
          | "freeze" -> cmd_freeze args
          | _ -> failwith ("unknown command " ^ cmd))
     | _ -> "(bad-case)"
